@@ -48,6 +48,19 @@ CHECKS = {
              'values against the model composition, stored keys against the model\'s symbolic run, composition oracle on the implementation.',
         technique='Rocq proof (naturality under operation-preserving maps + verified polynomial zero test) + in-Coq differential correspondence',
         ref='DESIGN.md 4 (C06)'),
+    'C07': dict(
+        text='PARTIAL.  Theorems about Model/Inverse.v (codegen_inv / hitzer / shirokov / div / power_supply / AdditionChains modelled branch '
+             'by branch, the symbolic zero-filter a parameter): for every algebra, commutative ring and sparse operand - scalar denominators on '
+             'both sides give a two-sided inverse, inverses are unique, a/b = a*b.inv(), number/x = number*x.inv(), ZeroDivisionError exactly '
+             'when the generated denominator tests zero, power_supply yields x^k, the Shirokov pair satisfies x adj = adj x = den whenever the '
+             'loop stops by its break.  For d <= 4, every ascending-spelled basis (all default bases, every signature ordering), ALL operands, '
+             'the metric as ring indeterminates: x num = num x = den, den = 0 only for operands without inverse, hence x.inv() is a two-sided '
+             'inverse whenever it returns and over a field returns exactly for invertible operands.  NOT proved: the d = 5 closed form, that the '
+             'Shirokov loop reaches its break, singularity beyond d = 4, non-ascending custom spellings; there the check is the direct oracle on '
+             'the implementation (exact over Fraction for d <= 5, to rounding beyond, exact linear-algebra singularity oracle on '
+             'ZeroDivisionError) plus the in-Coq model tie - exploration, labelled so in the evidence.',
+        technique='Rocq proof (coefficient reflection + ring with generic metric; staged proof via associativity for d = 4; loop invariant for Shirokov) + direct oracle + in-Coq differential correspondence',
+        ref='DESIGN.md 4 (C07)'),
     'C08': dict(
         text='Congruence theorems: every product-type operator (any sign function, filter, key-out), add, sub, neg, the involutions '
              'and the Hodge duals respect coefficient-wise equality of operands (permuted / zero-padded storage), over every '
@@ -125,8 +138,10 @@ CHECKS = {
     'C18': dict(
         text='PARTIAL.  Finite-domain theorem (bound in the statement): for every default-basis algebra with 1 <= d <= 4, all signature '
              'orderings, start 0-2, all pairs of basis blades: M(e_I) M(e_J) = s M(e_IJ) and column 0 is the unit vector (exhaustive '
-             'vm_compute lifted with forallb_forall); unbounded in the operands: linear, multiplicative, first column, frommatrix inverts, '
-             'injective.  Custom bases refuted (known finding F10).  expr_as_matrix is not modelled: direct oracle only (exploration).',
+             'vm_compute lifted with forallb_forall); the same check for the named custom bases 2DPGA, 3DPGA and for every custom basis the '
+             'correspondence explores (blade matrices built along the blade names - the repaired finding F10); unbounded in the operands for '
+             'every algebra that passes the check: linear, multiplicative, first column, frommatrix inverts, injective.  expr_as_matrix is not '
+             'modelled: direct oracle only (exploration).',
         technique='Rocq proof: exhaustive kernel computation over a finite domain + unbounded linear-algebra lemmas; differential correspondence',
         ref='DESIGN.md 4 (C18)'),
     'C20': dict(
